@@ -23,6 +23,39 @@ package car
 //@ func (Header).HasIndex
 //@   ensures def [C05,C07]: result == (h.IndexOffset != 0)
 
+//@ func (Characteristics).WriteTo
+//@   modifies wn(w)
+//@   ensures count [C05,C16]: wn(w) == old(wn(w)) + n && 0 <= n && n <= 16
+//@   ensures full [C05]: err == nil ==> n == 16
+
+//@ func (*Characteristics).ReadFrom
+//@   modifies pos(r), c.Hi, c.Lo
+//@   ensures count [C05,C09]: pos(r) == old(pos(r)) + result0 && 0 <= result0 && result0 <= 16
+//@   ensures full [C05]: err == nil ==> result0 == 16
+//@   ensures eof_clean [C02]: err == io.EOF ==> result0 == 0
+
+//@ func (Header).WriteTo
+//@   modifies wn(w)
+//@   ensures count [C05,C16]: wn(w) == old(wn(w)) + n && 0 <= n && n <= 40
+//@   ensures full [C05]: err == nil ==> n == 40
+
+//@ func (*Header).ReadFrom
+//@   modifies pos(r), h.Characteristics.Hi, h.Characteristics.Lo, h.DataOffset, h.DataSize, h.IndexOffset
+//@   ensures count [C05,C09]: pos(r) == old(pos(r)) + result0 && 0 <= result0 && result0 <= 40
+//@   ensures full [C05]: err == nil ==> result0 == 40
+//@   ensures ranges [C09]: err == nil ==> 51 <= h.DataOffset && h.DataOffset < 9223372036854775808 && 0 < h.DataSize && h.DataSize < 9223372036854775808 && h.IndexOffset < 9223372036854775808
+//@   ensures untouched_on_error [C06]: err != nil ==> h.DataOffset == old(h.DataOffset) && h.DataSize == old(h.DataSize) && h.IndexOffset == old(h.IndexOffset)
+
+//@ func NewBlockReader
+//@   requires origin: pos(r) == 0 && sbase(r) == 0
+//@   assume canonical_pragma: true
+//@   let hdr, herr := call[carv1.ReadHeader#0]
+//@   call[Seeker.Seek#0] assume pragma_is_11_bytes: enclen(hdr) == 10
+//@   ensures inv [C14]: err == nil && pos(result0.r) <= 4611686018427387904 ==> result0.offset == pos(result0.r)
+//@   ensures v1 [C14]: err == nil && result0.Version == 1 ==> result0.v1offset == 0 && result0.r == r
+//@   ensures v2_limit [C14]: err == nil && result0.Version == 2 ==> typeis(result0.r, "*io.LimitedReader") && cell(result0.r) == cell(r)
+//@   ensures versions [C14]: err == nil ==> result0.Version == 1 || result0.Version == 2
+
 //@ func (*BlockReader).Next
 //@   requires inv: br.offset == pos(br.r)
 //@   assume stream_bound: pos(br.r) >= 0 && pos(br.r) <= 4611686018427387904
@@ -48,3 +81,15 @@ package car
 //@   ensures advance [C14]: err == nil ==> br.offset == old(br.offset) + vsize(sectionSize) + sectionSize
 //@   ensures inv_kept [C14]: err == nil ==> br.offset == pos(br.r)
 //@   ensures eof_clean [C02]: err == io.EOF ==> pos(br.r) == old(pos(br.r)) || (br.opts.ZeroLengthSectionAsEOF && e0 == io.EOF && pos(br.r) == old(pos(br.r)) + 1)
+
+//@ func LoadIndex
+//@   requires origin: pos(r) == 0 && sbase(r) == 0
+//@   assume stream_bound: true
+//@   let pragma, perr := call[carv1.ReadHeader#0]
+//@   loop[0] invariant offset [C03]: sectionOffset == pos(reader) - sbase(reader) - dataOffset
+//@   loop[0] invariant nonneg [C03]: dataOffset >= 0
+//@   loop[0] invariant reader_ok [C03]: objinv(reader)
+//@   call[append#0] assert record_offset [C03]: arg1[0].Offset == wrap_u64(athead(0, pos(reader)) - sbase(reader) - dataOffset)
+//@   call[append#0] assert record_cid [C03]: arg1[0].Cid == c
+//@   call[append#0] assert identity_filter [C03]: o.StoreIdentityCIDs || mhtype(c) != 0
+//@   call[append#0] assert cid_size [C03,C04]: cidLen <= o.MaxIndexCidSize
